@@ -11,6 +11,7 @@ import (
 	"os"
 	"reflect"
 	"regexp"
+	"strconv"
 	"strings"
 	"time"
 	"verifharness/zoo2"
@@ -121,6 +122,7 @@ type bindObs struct {
 	prepErr  string
 	qErr     string
 	panicked string
+	stmt     *sqlair.Statement
 }
 
 // implBind runs Prepare + Query + Run on a fresh fake database.
@@ -144,6 +146,32 @@ func bothSliceForms(args []any) (int, int) {
 	return -1, -1
 }
 
+// prepareEither prepares through Prepare or, for a third of the queries, through MustPrepare (whose panic
+// carries the error).
+func prepareEither(q string, samples []any) (stmt *sqlair.Statement, err error) {
+	if strHash(q)%3 != 1 {
+		return sqlair.Prepare(q, samples...)
+	}
+	defer func() {
+		if r := recover(); r != nil {
+			if e, ok := r.(error); ok {
+				err = e
+			} else {
+				panic(r)
+			}
+		}
+	}()
+	return sqlair.MustPrepare(q, samples...), nil
+}
+
+// heldStmt: a Statement that stays in use while other statements are prepared and run.
+type heldStmt struct {
+	stmt  *sqlair.Statement
+	args  []any
+	query string
+	ref   string
+}
+
 func strHash(s string) uint64 {
 	h := uint64(1469598103934665603)
 	for i := 0; i < len(s); i++ {
@@ -158,7 +186,7 @@ func implBind(c bindCase) (o bindObs) {
 			o = bindObs{line: "PANIC " + fmt.Sprintf("%q", fmt.Sprint(r)), panicked: fmt.Sprint(r)}
 		}
 	}()
-	stmt, err := sqlair.Prepare(c.query, c.samples...)
+	stmt, err := prepareEither(c.query, c.samples)
 	if err != nil {
 		msg := err.Error()
 		if strings.HasPrefix(msg, "cannot parse expression") {
@@ -257,6 +285,7 @@ func implBind(c bindCase) (o bindObs) {
 		prep = &event{SQL: run.SQL}
 	}
 	o.sql = prep.SQL
+	o.stmt = stmt
 	kind := "E"
 	if run != nil && run.Kind == "query" {
 		kind = "Q"
@@ -393,6 +422,20 @@ func cmdBind(args []string) int {
 	iw := bufio.NewWriter(impl)
 	st := bindStats{Results: map[string]int{}, Classes: map[string]int{}}
 	seen := map[string]bool{}
+	var ring []heldStmt
+	// the statement for the empty query, through MustPrepare, before and after everything else
+	emptyProbe := func() string {
+		defer func() { recover() }()
+		return runOnce(sqlair.MustPrepare(""), nil)
+	}
+	emptyBefore := emptyProbe()
+	defer func() {
+		if after := emptyProbe(); after != emptyBefore {
+			for _, p := range []string{"C16", "C01"} {
+				addViol(violation{p, "statement-sends-something-else-after-other-statements-were-prepared", hx(""), "MustPrepare(\"\") at the start: " + trunc(emptyBefore, 200) + "  at the end: " + trunc(after, 200)})
+			}
+		}
+	}()
 	var follow *bindCase
 	for i := 0; i < *n; i++ {
 		var c bindCase
@@ -420,6 +463,23 @@ func cmdBind(args []string) int {
 		fmt.Fprintln(iw, o.line)
 		bindOracles(c, o, addViol)
 		specOracle(c, o, &st, addViol)
+		// Statements stay in use while others are prepared: the eight most recent accepted ones are run again
+		// after every new Prepare and must send what they sent when they were new
+		if o.stmt != nil && strings.HasPrefix(o.line, "OK") {
+			ring = append(ring, heldStmt{stmt: o.stmt, args: c.args, query: c.query, ref: runOnce(o.stmt, c.args)})
+			if len(ring) > 8 {
+				ring = ring[1:]
+			}
+		}
+		for _, h := range ring {
+			if got := runOnce(h.stmt, h.args); got != h.ref {
+				for _, p := range []string{"C16", "C05", "C03", "C01"} {
+					addViol(violation{p, "statement-sends-something-else-after-other-statements-were-prepared", hx(h.query), "when new: " + trunc(h.ref, 300) + "  after preparing " + strconv.Quote(trunc(c.query, 120)) + ": " + trunc(got, 300)})
+				}
+				ring = nil
+				break
+			}
+		}
 		st.Cases++
 		f := strings.Fields(o.line)
 		st.Results[f[0]]++
